@@ -561,6 +561,7 @@ func genCase(t *rapid.T, fonts []*fontEntry, cum []int) (*fontEntry, *Case) {
 		c.Features = append(c.Features, genFeature(t, fe, len(text)))
 	}
 	c.Vars = genVars(t, fe)
+	genInstanceExtras(t, fe, c)
 	c.Cluster = rapid.SampledFrom([]int{0, 0, 0, 1, 2}).Draw(t, "clusterLevel")
 	c.Flags = rapid.SampledFrom([]int{3, 3, 3, 3, 0, 1, 2, 3 | 4, 3 | 8, 3 | 4 | 8, 4, 8, 1 | 8, 2 | 4}).Draw(t, "flags")
 	// invisible / not-found glyphs: mostly unset; otherwise a valid glyph id of the font
@@ -580,4 +581,34 @@ func minInt(a, b int) int {
 		return a
 	}
 	return b
+}
+
+// genInstanceExtras: normalized coordinates instead of design-space settings (a fifth of the
+// cases on variable fonts), pixels per em (Device tables), point size (trak).
+func genInstanceExtras(t *rapid.T, fe *fontEntry, c *Case) {
+	if len(fe.axes) > 0 && rapid.IntRange(0, 4).Draw(t, "normalizedCoords") == 0 {
+		c.Vars = nil
+		for range fe.axes {
+			c.Coords = append(c.Coords, rapid.SampledFrom([]int{0, 16384, -16384, 8192, -8192, 1, -1, 4096, 12288, -12288}).Draw(t, "coord"))
+		}
+		if rapid.IntRange(0, 2).Draw(t, "coordRandom") == 0 {
+			for i := range c.Coords {
+				c.Coords[i] = rapid.IntRange(-16384, 16384).Draw(t, "coordValue")
+			}
+		}
+	}
+	ppemShare := 4 // of 20
+	if fe.device {
+		ppemShare = 16
+	}
+	if rapid.IntRange(0, 19).Draw(t, "ppemMode") < ppemShare {
+		c.XPpem = rapid.SampledFrom([]int{8, 9, 10, 11, 12, 13, 14, 15, 16, 17, 18, 19, 20, 24, 32, 100}).Draw(t, "xppem")
+		c.YPpem = c.XPpem
+		if rapid.IntRange(0, 3).Draw(t, "ppemAnisotropic") == 0 {
+			c.YPpem = rapid.SampledFrom([]int{0, 9, 12, 16, 20}).Draw(t, "yppem")
+		}
+	}
+	if rapid.IntRange(0, 9).Draw(t, "ptemMode") == 0 {
+		c.Ptem = rapid.SampledFrom([]float32{6, 9, 12, 24, 72, 144}).Draw(t, "ptem")
+	}
 }
